@@ -295,6 +295,19 @@ def run(ctx):
                 tr.append(dict(op=op, n=n, r=r))
             ctx.case(('hist', t, n), n > 1)
         traces.append(tr)
+    # a sweep over every sample size up to 64 and every length up to 2000: wherever the ways of asking one object disagree (the list,
+    # the generator, the count), that (N, n) becomes a trace for TLC to judge - the sweep only selects, it gives no verdict
+    nsel = 0
+    for N in range(1, 65):
+        obj = S.Sample(N)
+        for n in range(0, 2001):
+            li = obj.indices(n)
+            if nsel < 40 and (li != list(obj.gen_indices(n)) or len(li) != obj.count(n) or (li and li[0] != obj.first(n))):
+                nsel += 1
+                o2 = S.Sample(N)
+                traces.append([dict(op='new_sample', N=N), dict(op='indices', n=n, r=o2.indices(n)), dict(op='gen_indices', n=n, r=list(o2.gen_indices(n))),
+                               dict(op='count', n=n, r=o2.count(n)), dict(op='first', n=n, r=o2.first(n))])
+    ctx.notes['sample_sweep_selected'] = nsel
     ctx.sample(dict(kind='trace', events=traces[-1][:4]))
     in_situ(ctx, traces)
     apalache_inductive(ctx)
